@@ -608,6 +608,15 @@ VOP(mz_msg)
 		p->Set("host", host->GetName());
 	}
 	(void)pki;
+	if (obj[0] == 'x') {
+		// cross groups: bring the RELATED checkable (the host of the service named / the service of the host named) into the same
+		// prepared state as the one the message names, so that a handler that also wrote to it would visibly change it
+		Checkable::Ptr other = useSvc ? Checkable::Ptr(host) : Checkable::Ptr(svc);
+		if (other->GetForceNextCheck() != ck->GetForceNextCheck()) other->SetForceNextCheck(ck->GetForceNextCheck());
+		if (other->GetForceNextNotification() != ck->GetForceNextNotification()) other->SetForceNextNotification(ck->GetForceNextNotification());
+		if (method == "event::SetAcknowledgement" && other->IsAcknowledged()) other->ClearAcknowledgement("prep", now);
+		if (method == "event::ClearAcknowledgement" && !other->IsAcknowledged()) other->AcknowledgeProblem("prep", "prep", AcknowledgementNormal, false, false, now, 0);
+	}
 
 	Dictionary::Ptr msg = new Dictionary({ { "jsonrpc", "2.0" }, { "method", String(method) }, { "params", p } });
 	std::string claim = a.str("claim", "-");
